@@ -95,6 +95,10 @@ def handle (x : Sexp) : String :=
     | some u, some h, some f =>
       showResolved (lookupName { user := fun _ => u, hostBuiltin := fun _ => h, func := fun _ => f } n)
     | _, _, _ => "err parse"
+  | .list [.atom "nameg", .atom n, u] =>
+    match u.bool? with
+    | some u => showResolved (lookupGlobalDeclared { user := fun _ => u, hostBuiltin := fun _ => true, func := fun _ => true } n)
+    | none => "err parse"
   | _ => "err bad-command"
 
 end PsModel.C17
